@@ -469,7 +469,19 @@ pub fn realize_patterns(list: &PatList, alpha: &[u8]) -> Vec<Vec<u8>> {
         PatList::Packedish(raws) => {
             let full = alphabet(if alpha.len() < 8 { ALPHA_TEXT } else { ALPHA_FULL });
             let a: &[u8] = if alpha.len() >= 8 { alpha } else { &full };
-            raws.iter().map(|r| map_bytes(a, r)).collect()
+            let mut out: Vec<Vec<u8>> = raws.iter().map(|r| map_bytes(a, r)).collect();
+            // one list in four: every pattern long (9..=40 bytes), so that the
+            // packed searcher's minimum length is far above the Teddy masks
+            let stretch = if raws[0][0] % 4 == 0 { 9 + (raws[0][1] as usize % 32) } else { 0 };
+            for p in out.iter_mut() {
+                let orig = p.clone();
+                let mut i = 0;
+                while p.len() < stretch {
+                    p.push(a[(orig[i % orig.len()] as usize + i * 37) % a.len()]);
+                    i += 1;
+                }
+            }
+            out
         }
         PatList::MidPacked { raws, dups } => {
             let full = alphabet(ALPHA_FULL);
